@@ -1,180 +1,6 @@
--- GENERATED by /verif/harness/extract.py from the /repo working tree -- do not edit.
-namespace HotXL.Generated
--- cell_tables
-def columnLabelBase : String := "ABCDEFGHIJKLMNOPQRSTUVWXYZ"
-def labelExtractRegexp : String := "^([$])?([A-Za-z]+)([$])?([0-9]+)\\Z"
-def columnChrOffset : Nat := 97
--- lexer_tables
-def lexRules : List (String × String) := [
-  ("WHITESPACE", "\\s+"),
-  ("STRING", "\"(\\\\[\"]|[^\"])*\"|\\'(\\\\[\\']|[^\\'])*\\'"),
-  ("FUNCTION", "([A-Za-z]{1,}[A-Za-z_0-9\\.]+(?=[(]))|([A-Za-z\\.]+(?=[(]))"),
-  ("XLERROR", "\\#[A-Z0-9\\/]+(\\!|\\?)?"),
-  ("ABSOLUTE_CELL", "\\$[A-Za-z]+\\$[0-9]+"),
-  ("MIXED_CELL", "(\\$[A-Za-z]+[0-9]+)|([A-Za-z]+\\$[0-9]+)"),
-  ("RELATIVE_CELL", "[A-Za-z]+[0-9]+"),
-  ("VARIABLE", "([A-Za-z]{1,}[A-Za-z_0-9]+)|([A-Za-z_]+)"),
-  ("NUMBER", "[0-9]+"),
-  ("LBRACKET", "\\{"),
-  ("RBRACKET", "\\}"),
-  ("AMP", "\\&"),
-  ("SINGLESPACE", "\\ "),
-  ("DECIMAL", "\\."),
-  ("COLON", "\\:"),
-  ("SEMICOLON", "\\;"),
-  ("COMMA", "\\,"),
-  ("BACKSLASH", "\\\\"),
-  ("MULT", "\\*"),
-  ("DIV", "\\/"),
-  ("MINUS", "\\-"),
-  ("PLUS", "\\+"),
-  ("CARET", "\\^"),
-  ("LPAREN", "\\("),
-  ("RPAREN", "\\)"),
-  ("NOTEQUAL", "\\<\\>"),
-  ("GREATEREQ", "\\>\\="),
-  ("LESSEQ", "\\<\\="),
-  ("GREATER", "\\>"),
-  ("LESS", "\\<"),
-  ("QUOTATION", "\\\""),
-  ("APOSTROPHE", "\\'"),
-  ("EXCLAMATION", "\\!"),
-  ("EQUAL", "\\="),
-  ("PERCENT", "\\%"),
-  ("HASH", "\\#")
-]
-def lexIgnore : String := ""
-def lexErrorRaises : List String := ["error.NAME"]
--- grammar_tables
-def precedence : List (String × List String) := [
-  ("left", ["EQUAL"]),
-  ("left", ["LESSEQ", "GREATEREQ", "NOTEQUAL"]),
-  ("left", ["GREATER", "LESS"]),
-  ("left", ["PLUS", "MINUS"]),
-  ("left", ["MULT", "DIV"]),
-  ("left", ["CARET"]),
-  ("left", ["AMP"]),
-  ("left", ["PERCENT"]),
-  ("left", ["UMINUS"])
-]
-def productions : List (String × String × List String × String) := [
-  ("p_expressions", "expressions", ["expression"], ""),
-  ("p_expression_arithmetic_operator", "expression", ["expression", "PLUS", "expression"], ""),
-  ("p_expression_arithmetic_operator", "expression", ["expression", "MINUS", "expression"], ""),
-  ("p_expression_arithmetic_operator", "expression", ["expression", "MULT", "expression"], ""),
-  ("p_expression_arithmetic_operator", "expression", ["expression", "DIV", "expression"], ""),
-  ("p_expression_arithmetic_operator", "expression", ["expression", "AMP", "expression"], ""),
-  ("p_expression_logical_operator", "expression", ["expression", "GREATER", "expression"], ""),
-  ("p_expression_logical_operator", "expression", ["expression", "LESS", "expression"], ""),
-  ("p_expression_logical_operator", "expression", ["expression", "GREATEREQ", "expression"], ""),
-  ("p_expression_logical_operator", "expression", ["expression", "LESSEQ", "expression"], ""),
-  ("p_expression_logical_operator", "expression", ["expression", "EQUAL", "expression"], ""),
-  ("p_expression_logical_operator", "expression", ["expression", "NOTEQUAL", "expression"], ""),
-  ("p_expression_uminus", "expression", ["MINUS", "expression"], "UMINUS"),
-  ("p_expression_number", "expression", ["NUMBER"], ""),
-  ("p_expression_number", "expression", ["DECIMAL", "NUMBER"], ""),
-  ("p_expression_number", "expression", ["NUMBER", "DECIMAL", "NUMBER"], ""),
-  ("p_expression_number", "expression", ["NUMBER", "CARET", "NUMBER"], ""),
-  ("p_expression_number", "expression", ["NUMBER", "PERCENT"], ""),
-  ("p_expression_string", "expression", ["STRING"], ""),
-  ("p_expression_function", "expression", ["FUNCTION", "LPAREN", "RPAREN"], ""),
-  ("p_expression_wargs", "expression", ["FUNCTION", "LPAREN", "expseqcomma", "RPAREN"], ""),
-  ("p_expression_wargs", "expression", ["FUNCTION", "LPAREN", "expseqsemicolon", "RPAREN"], ""),
-  ("p_expression_wargs", "expression", ["FUNCTION", "LPAREN", "expseqbackslash", "RPAREN"], ""),
-  ("p_expression_array", "expression", ["array"], ""),
-  ("p_array", "array", ["LBRACKET", "expseqsemicolon", "RBRACKET"], ""),
-  ("p_array", "array", ["LBRACKET", "expseqcomma", "RBRACKET"], ""),
-  ("p_array", "array", ["LBRACKET", "expseqbackslash", "RBRACKET"], ""),
-  ("p_expseq_semicolon", "expseqsemicolon", ["expression"], ""),
-  ("p_expseq_semicolon", "expseqsemicolon", ["SEMICOLON", "SEMICOLON"], ""),
-  ("p_expseq_semicolon", "expseqsemicolon", ["SEMICOLON", "expseqsemicolon"], ""),
-  ("p_expseq_semicolon", "expseqsemicolon", ["expseqsemicolon", "SEMICOLON"], ""),
-  ("p_expseq_semicolon", "expseqsemicolon", ["expseqsemicolon", "SEMICOLON", "expression"], ""),
-  ("p_expseq_semicolon", "expseqsemicolon", ["expseqsemicolon", "SEMICOLON", "SEMICOLON", "expression"], ""),
-  ("p_expseq_semicolon", "expseqsemicolon", ["expseqcomma", "SEMICOLON", "expseqcomma"], ""),
-  ("p_expseq_semicolon", "expseqsemicolon", ["expseqbackslash", "SEMICOLON", "expseqbackslash"], ""),
-  ("p_expseq_comma", "expseqcomma", ["expression"], ""),
-  ("p_expseq_comma", "expseqcomma", ["COMMA", "COMMA"], ""),
-  ("p_expseq_comma", "expseqcomma", ["COMMA", "expseqcomma"], ""),
-  ("p_expseq_comma", "expseqcomma", ["expseqcomma", "COMMA"], ""),
-  ("p_expseq_comma", "expseqcomma", ["expseqcomma", "COMMA", "expression"], ""),
-  ("p_expseq_comma", "expseqcomma", ["expseqcomma", "COMMA", "COMMA", "expression"], ""),
-  ("p_expseq_backslash", "expseqbackslash", ["expression"], ""),
-  ("p_expseq_backslash", "expseqbackslash", ["BACKSLASH", "BACKSLASH"], ""),
-  ("p_expseq_backslash", "expseqbackslash", ["BACKSLASH", "expseqbackslash"], ""),
-  ("p_expseq_backslash", "expseqbackslash", ["expseqbackslash", "BACKSLASH"], ""),
-  ("p_expseq_backslash", "expseqbackslash", ["expseqbackslash", "BACKSLASH", "expression"], ""),
-  ("p_expseq_backslash", "expseqbackslash", ["expseqbackslash", "BACKSLASH", "BACKSLASH", "expression"], ""),
-  ("p_xlerror", "expression", ["XLERROR"], ""),
-  ("p_expression_paren", "expression", ["LPAREN", "expression", "RPAREN"], ""),
-  ("p_expression_varseq", "expression", ["variable_sequence"], ""),
-  ("p_variable", "variable_sequence", ["VARIABLE"], ""),
-  ("p_variable_seq", "variable_sequence", ["variable_sequence", "DECIMAL", "VARIABLE"], ""),
-  ("p_expression_cell", "expression", ["cell"], ""),
-  ("p_cell", "cell", ["ABSOLUTE_CELL"], ""),
-  ("p_cell", "cell", ["RELATIVE_CELL"], ""),
-  ("p_cell", "cell", ["MIXED_CELL"], ""),
-  ("p_cell", "cell", ["ABSOLUTE_CELL", "COLON", "ABSOLUTE_CELL"], ""),
-  ("p_cell", "cell", ["ABSOLUTE_CELL", "COLON", "RELATIVE_CELL"], ""),
-  ("p_cell", "cell", ["ABSOLUTE_CELL", "COLON", "MIXED_CELL"], ""),
-  ("p_cell", "cell", ["RELATIVE_CELL", "COLON", "ABSOLUTE_CELL"], ""),
-  ("p_cell", "cell", ["RELATIVE_CELL", "COLON", "RELATIVE_CELL"], ""),
-  ("p_cell", "cell", ["RELATIVE_CELL", "COLON", "MIXED_CELL"], ""),
-  ("p_cell", "cell", ["MIXED_CELL", "COLON", "ABSOLUTE_CELL"], ""),
-  ("p_cell", "cell", ["MIXED_CELL", "COLON", "RELATIVE_CELL"], ""),
-  ("p_cell", "cell", ["MIXED_CELL", "COLON", "MIXED_CELL"], "")
-]
--- operator_tables
-def convTable : List (String × String × String × String × String × String) := [
-  ("*", "date", "date", "serialize_date", "serialize_date", "absent"),
-  ("*", "date", "none", "serialize_date", "zero", "parse_date"),
-  ("*", "date", "number", "serialize_date", "none", "parse_date"),
-  ("*", "none", "date", "zero", "serialize_date", "parse_date"),
-  ("*", "none", "none", "zero", "zero", "absent"),
-  ("*", "none", "number", "zero", "none", "absent"),
-  ("*", "number", "date", "none", "serialize_date", "parse_date"),
-  ("*", "number", "none", "none", "zero", "absent"),
-  ("*", "number", "number", "none", "none", "absent"),
-  ("+", "date", "date", "serialize_date", "serialize_date", "absent"),
-  ("+", "date", "none", "serialize_date", "zero", "parse_date"),
-  ("+", "date", "number", "serialize_date", "none", "parse_date"),
-  ("+", "none", "date", "zero", "serialize_date", "parse_date"),
-  ("+", "none", "none", "zero", "zero", "absent"),
-  ("+", "none", "number", "zero", "none", "absent"),
-  ("+", "number", "date", "none", "serialize_date", "parse_date"),
-  ("+", "number", "none", "none", "zero", "absent"),
-  ("+", "number", "number", "none", "none", "absent"),
-  ("-", "date", "date", "serialize_date", "serialize_date", "absent"),
-  ("-", "date", "none", "serialize_date", "zero", "parse_date"),
-  ("-", "date", "number", "serialize_date", "none", "parse_date"),
-  ("-", "none", "date", "zero", "serialize_date", "parse_date"),
-  ("-", "none", "none", "zero", "zero", "absent"),
-  ("-", "none", "number", "zero", "none", "absent"),
-  ("-", "number", "date", "none", "serialize_date", "parse_date"),
-  ("-", "number", "none", "none", "zero", "absent"),
-  ("-", "number", "number", "none", "none", "absent"),
-  ("/", "date", "date", "serialize_date", "serialize_date", "absent"),
-  ("/", "date", "none", "serialize_date", "zero", "absent"),
-  ("/", "date", "number", "serialize_date", "none", "parse_date"),
-  ("/", "none", "date", "zero", "serialize_date", "absent"),
-  ("/", "none", "none", "zero", "zero", "absent"),
-  ("/", "none", "number", "zero", "none", "absent"),
-  ("/", "number", "date", "none", "serialize_date", "parse_date"),
-  ("/", "number", "none", "none", "zero", "absent"),
-  ("/", "number", "number", "none", "none", "absent")
-]
-def operatorDict : List (String × String) := [("*", "mul"), ("+", "add"), ("-", "sub"), ("/", "truediv"), ("<", "lt"), ("<=", "le"), ("<>", "ne"), ("=", "eq"), (">", "gt"), (">=", "ge")]
-def serializeDateConsts : List Int := [0, 1000, 1000, (-2203891200000), 86400000, 1, 86400000, 2]
-def serializeDateCompares : List String := ["Eq", "Lt"]
-def parseDateConsts : List Int := [0, 1, 60, 1, 86400, 2, 86400]
-def parseDateCompares : List String := ["Lt", "Lt", "LtE"]
-def date1900 : List Nat := [1900, 1, 1, 0, 0, 0, 0]
-def epochDate : List Nat := [1970, 1, 1, 0, 0, 0, 0]
--- registry_tables
-def registry : List String := ["ABS", "ACOS", "ACOSH", "ACOT", "ACOTH", "AND", "ARABIC", "ASIN", "ASINH", "ATAN", "ATAN2", "ATANH", "AVEDEV", "AVERAGE", "AVERAGEA", "AVERAGEIF", "AVERAGEIFS", "BASE", "CEILING", "CEILING.MATH", "CEILING.PRECISE", "CHAR", "CHOOSE", "CLEAN", "CODE", "COMPLEX", "CONCAT", "CONCATENATE", "COS", "COSH", "COT", "COUNT", "COUNTA", "COUNTBLANK", "COUNTIF", "DATE", "DATEDIF", "DATEVALUE", "DAY", "DAYS", "DEC2HEX", "DECIMAL", "DEGREES", "DELTA", "EDATE", "ERROR.TYPE", "EVEN", "EXP", "FACT", "FACTDOUBLE", "FALSE", "FLOOR", "FLOOR.MATH", "FLOOR.PRECISE", "GEOMEAN", "HARMEAN", "HEX2DEC", "HOUR", "IF", "IFERROR", "IFNA", "IFS", "IMAGINARY", "IMREAL", "INDEX", "INT", "ISBLANK", "ISERR", "ISERROR", "ISEVEN", "ISLOGICAL", "ISNA", "ISNONTEXT", "ISNUMBER", "ISODD", "ISTEXT", "LARGE", "LEFT", "LEFTB", "LEN", "LENB", "LN", "LOG", "LOG10", "LOWER", "MATCH", "MAX", "MAXA", "MAXIFS", "MEDIAN", "MID", "MIDB", "MIN", "MINA", "MINUTE", "MOD", "MODE", "MODE.SNGL", "MONTH", "N", "NA", "NOT", "NOW", "ODD", "OR", "PI", "POWER", "PRODUCT", "PROPER", "PV", "QUOTIENT", "RADIANS", "RAND", "RANDBETWEEN", "RIGHT", "RIGHTB", "ROMAN", "ROUND", "ROUNDDOWN", "ROUNDUP", "SECOND", "SIGN", "SIN", "SINH", "SLOPE", "SQRT", "STDEV", "STDEV.P", "STDEV.S", "STDEVA", "STDEVP", "STDEVPA", "SUBSTITUTE", "SUM", "SUMIF", "SUMIFS", "SWITCH", "T", "TAN", "TANH", "TEXT", "TEXTJOIN", "TIME", "TIMEVALUE", "TODAY", "TRIM", "TRUE", "UPPER", "VAR", "VAR.P", "VAR.S", "VARA", "VARP", "WEEKDAY", "XOR", "YEAR"]
-def documented : List String := ["ABS", "ACOS", "ACOSH", "ACOT", "ACOTH", "AND", "ARABIC", "ASIN", "ASINH", "ATAN", "ATAN2", "ATANH", "AVEDEV", "AVERAGE", "AVERAGEA", "AVERAGEIF", "AVERAGEIFS", "BASE", "CEILING", "CEILING.MATH", "CEILING.PRECISE", "CHAR", "CHOOSE", "CLEAN", "CODE", "COMPLEX", "CONCAT", "CONCATENATE", "COS", "COSH", "COT", "COUNT", "COUNTA", "COUNTBLANK", "COUNTIF", "DATE", "DATEDIF", "DATEVALUE", "DAY", "DAYS", "DEC2HEX", "DECIMAL", "DEGREES", "DELTA", "EDATE", "ERROR.TYPE", "EVEN", "EXP", "FACT", "FACTDOUBLE", "FALSE", "FLOOR", "FLOOR.MATH", "FLOOR.PRECISE", "GEOMEAN", "HARMEAN", "HEX2DEC", "HOUR", "IF", "IFERROR", "IFNA", "IFS", "IMAGINARY", "IMREAL", "INDEX", "INT", "ISBLANK", "ISERR", "ISERROR", "ISEVEN", "ISLOGICAL", "ISNA", "ISNONTEXT", "ISNUMBER", "ISODD", "ISTEXT", "LARGE", "LEFT", "LEFTB", "LEN", "LENB", "LN", "LOG", "LOG10", "LOWER", "MATCH", "MAX", "MAXA", "MAXIFS", "MEDIAN", "MID", "MIDB", "MIN", "MINA", "MINUTE", "MOD", "MODE", "MODE.SNGL", "MONTH", "N", "NA", "NOT", "NOW", "ODD", "OR", "PI", "POWER", "PRODUCT", "PROPER", "PV", "QUOTIENT", "RADIANS", "RAND", "RANDBETWEEN", "RIGHT", "RIGHTB", "ROMAN", "ROUND", "ROUNDDOWN", "ROUNDUP", "SECOND", "SIGN", "SIN", "SINH", "SLOPE", "SQRT", "STDEV", "STDEV.P", "STDEV.S", "STDEVA", "STDEVP", "STDEVPA", "SUBSTITUTE", "SUM", "SUMIF", "SUMIFS", "SWITCH", "T", "TAN", "TANH", "TEXT", "TEXTJOIN", "TIME", "TIMEVALUE", "TODAY", "TRIM", "TRUE", "UPPER", "VAR", "VAR.P", "VAR.S", "VARA", "VARP", "WEEKDAY", "XOR", "YEAR", "ACCRINT", "ACCRINTM", "ADDRESS", "AGGREGATE", "AMORDEGRC", "AMORLINC", "AREAS", "ARRAYTOTEXT", "ASC", "BAHTTEXT", "BESSELI", "BESSELJ", "BESSELK", "BESSELY", "BETA.DIST", "BETA.INV", "BETADIST", "BETAINV", "BIN2DEC", "BIN2HEX", "BIN2OCT", "BINOM.DIST", "BINOM.DIST.RANGE", "BINOM.INV", "BINOMDIST", "BITAND", "BITLSHIFT", "BITOR", "BITRSHIFT", "BITXOR", "CALL", "CELL", "CHIDIST", "CHIINV", "CHISQ.DIST", "CHISQ.DIST.RT", "CHISQ.INV", "CHISQ.INV.RT", "CHISQ.TEST", "CHITEST", "COLUMN", "COLUMNS", "COMBIN", "COMBINA", "CONFIDENCE", "CONFIDENCE.NORM", "CONFIDENCE.T", "CONVERT", "CORREL", "COTH", "COUNTIFS", "COUPDAYBS", "COUPDAYS", "COUPDAYSNC", "COUPNCD", "COUPNUM", "COUPPCD", "COVAR", "COVARIANCE.P", "COVARIANCE.S", "CRITBINOM", "CSC", "CSCH", "CUBEKPIMEMBER", "CUBEMEMBER", "CUBEMEMBERPROPERTY", "CUBERANKEDMEMBER", "CUBESET", "CUBESETCOUNT", "CUBEVALUE", "CUMIPMT", "CUMPRINC", "DAVERAGE", "DAYS360", "DB", "DBCS", "DCOUNT", "DCOUNTA", "DDB", "DEC2BIN", "DEC2OCT", "DEVSQ", "DGET", "DISC", "DMAX", "DMIN", "DOLLAR", "DOLLARDE", "DOLLARFR", "DPRODUCT", "DSTDEV", "DSTDEVP", "DSUM", "DURATION", "DVAR", "DVARP", "EFFECT", "ENCODEURL", "EOMONTH", "ERF", "ERF.PRECISE", "ERFC", "ERFC.PRECISE", "EUROCONVERT", "EXACT", "EXPON.DIST", "EXPONDIST", "F.DIST", "F.DIST.RT", "F.INV", "F.INV.RT", "F.TEST", "FDIST", "FILTER", "FILTERXML", "FIND", "FINDB", "FINV", "FISHER", "FISHERINV", "FIXED", "FORECAST", "FORECAST.ETS", "FORECAST.ETS.CONFINT", "FORECAST.ETS.SEASONALITY", "FORECAST.ETS.STAT", "FORECAST.LINEAR", "FORMULATEXT", "FREQUENCY", "FTEST", "FV", "FVSCHEDULE", "GAMMA", "GAMMA.DIST", "GAMMA.INV", "GAMMADIST", "GAMMAINV", "GAMMALN", "GAMMALN.PRECISE", "GAUSS", "GCD", "GESTEP", "GETPIVOTDATA", "GROWTH", "HEX2BIN", "HEX2OCT", "HLOOKUP", "HYPERLINK", "HYPGEOM.DIST", "HYPGEOMDIST", "IMABS", "IMARGUMENT", "IMCONJUGATE", "IMCOS", "IMCOSH", "IMCOT", "IMCSC", "IMCSCH", "IMDIV", "IMEXP", "IMLN", "IMLOG10", "IMLOG2", "IMPOWER", "IMPRODUCT", "IMSEC", "IMSECH", "IMSIN", "IMSINH", "IMSQRT", "IMSUB", "IMSUM", "IMTAN", "INDIRECT", "INFO", "INTERCEPT", "INTRATE", "IPMT", "IRR", "ISFORMULA", "ISO.CEILING", "ISOWEEKNUM", "ISPMT", "ISREF", "JIS", "KURT", "LCM", "LET", "LINEST", "LOGEST", "LOGINV", "LOGNORM.DIST", "LOGNORM.INV", "LOGNORMDIST", "LOOKUP", "MDETERM", "MDURATION", "MINIFS", "MINVERSE", "MIRR", "MMULT", "MODE.MULT", "MROUND", "MULTINOMIAL", "MUNIT", "NEGBINOM.DIST", "NEGBINOMDIST", "NETWORKDAYS", "NETWORKDAYS.INTL", "NOMINAL", "NORM.DIST", "NORM.INV", "NORM.S.DIST", "NORM.S.INV", "NORMDIST", "NORMINV", "NORMSDIST", "NORMSINV", "NPER", "NPV", "NUMBERVALUE", "OCT2BIN", "OCT2DEC", "OCT2HEX", "ODDFPRICE", "ODDFYIELD", "ODDLPRICE", "ODDLYIELD", "OFFSET", "PDURATION", "PEARSON", "PERCENTILE", "PERCENTILE.EXC", "PERCENTILE.INC", "PERCENTRANK", "PERCENTRANK.EXC", "PERCENTRANK.INC", "PERMUT", "PERMUTATIONA", "PHI", "PHONETIC", "PMT", "POISSON", "POISSON.DIST", "PPMT", "PRICE", "PRICEDISC", "PRICEMAT", "PROB", "QUARTILE", "QUARTILE.EXC", "QUARTILE.INC", "RANDARRAY", "RANK", "RANK.AVG", "RANK.EQ", "RATE", "RECEIVED", "REGISTER.ID", "REPLACE", "REPLACEB", "REPT", "ROW", "ROWS", "RRI", "RSQ", "RTD", "SEARCH", "SEARCHB", "SEC", "SECH", "SEQUENCE", "SERIESSUM", "SHEET", "SHEETS", "SKEW", "SKEW.P", "SLN", "SMALL", "SORT", "SORTBY", "SQRTPI", "STANDARDIZE", "STEYX", "SUBTOTAL", "SUMPRODUCT", "SUMSQ", "SUMX2MY2", "SUMX2PY2", "SUMXMY2", "SYD", "T.DIST", "T.DIST.2T", "T.DIST.RT", "T.INV", "T.INV.2T", "T.TEST", "TBILLEQ", "TBILLPRICE", "TBILLYIELD", "TDIST", "TINV", "TRANSPOSE", "TREND", "TRIMMEAN", "TRUNC", "TTEST", "TYPE", "UNICHAR", "UNICODE", "UNIQUE", "VALUE", "VALUETOTEXT", "VARPA", "VDB", "VLOOKUP", "WEBSERVICE", "WEEKNUM", "WEIBULL", "WEIBULL.DIST", "WORKDAY", "WORKDAY.INTL", "XIRR", "XLOOKUP", "XMATCH", "XNPV", "YEARFRAC", "YIELD", "YIELDDISC", "YIELDMAT", "Z.TEST", "ZTEST"]
-def predefinedVars : List (String × String) := [("FALSE", "false"), ("NULL", "none"), ("TRUE", "true")]
-def errorTable : List (String × String) := [("#ERROR!", "ERROR"), ("#DIV/0!", "DIV_ZERO"), ("#NAME?", "NAME"), ("#N/A", "NOT_AVAILABLE"), ("#NULL!", "NULL"), ("#NUM!", "NUM"), ("#REF!", "REF"), ("#VALUE!", "VALUE"), ("#GETTING_DATA", "DATA")]
-def errorDefault : String := "ERROR"
-def errorSingletons : List (String × String) := [("DATA", "#GETTING_DATA"), ("DIV_ZERO", "#DIV/0!"), ("ERROR", "#ERROR!"), ("NAME", "#NAME?"), ("NOT_AVAILABLE", "#N/A"), ("NULL", "#NULL!"), ("NUM", "#NUM!"), ("REF", "#REF!"), ("VALUE", "#VALUE!")]
-end HotXL.Generated
+-- GENERATED: all generated tables
+import HotXL.Generated.Cell
+import HotXL.Generated.Grammar
+import HotXL.Generated.Lexer
+import HotXL.Generated.Operators
+import HotXL.Generated.Registry
